@@ -312,9 +312,16 @@ def run_history(torf, ops, root, stop_on_deviation=True, timeout=60):
     steps = []
     old = signal.signal(signal.SIGALRM, _alarm)
     signal.alarm(timeout)
+    init = None
     try:
-        t = torf.Torrent()
-        init = project(t, root)
+        try:
+            t = torf.Torrent()
+            init = project(t, root)
+        except _Timeout:
+            raise
+        except Exception as e:   # noqa: a fresh Torrent() cannot even be built / inspected
+            return {'init': None, 'steps': [{'obs': None, 'res': type(e).__name__,
+                                             'dev': ['constructor-raised-' + type(e).__name__]}]}
         for op in ops:
             dev = []
             try:
@@ -338,7 +345,6 @@ def run_history(torf, ops, root, stop_on_deviation=True, timeout=60):
                 break
     except _Timeout:
         steps.append({'obs': None, 'res': 'timeout', 'dev': ['timeout']})
-        init = None
     finally:
         signal.alarm(0)
         signal.signal(signal.SIGALRM, old)
